@@ -16,6 +16,7 @@ import os
 import vlib
 from families import common
 
+DIRECT = ("conv2", "convn", "zin2", "zinn", "sconv2", "sconvn", "szin2", "szinn")
 SOURCES = ["drv_netparams.c", "relcheck.c", "vt.c", "vt_alloc.c"]
 
 
@@ -48,10 +49,18 @@ def export_table(ctx):
                      (c["from"], c["to"], c["rows"], c["cols"], c["legal"],
                       c["copy"], c["fn2"], c["fnn"], c["z0"], c["orows"],
                       c["ocols"]))
+        for nr in doc["nets"]:
+            fp.write("net\t%s\t%d\t%d\t%d\t%s\n" % (nr["net"], nr["n"],
+                                                    nr["nelem"], len(nr["eqs"]),
+                                                    nr["ekind"]))
+            for k, eq in enumerate(nr["eqs"]):
+                for t in eq:
+                    fp.write("neq\t%s\t%d\t%d\t%s\t%d\t%s\n" %
+                             (nr["net"], nr["n"], k + 1, t["q"], t["p"], t["c"]))
         for c in doc["cases"]:
-            fp.write("case\t%s\t%s\t%s\t%s\t%d\t%d\t%s\n" %
+            fp.write("case\t%s\t%s\t%s\t%s\t%d\t%d\t%s\t%s\n" %
                      (c["kind"], c["from"], c["via"], c["to"], c["n"],
-                      c["alias"], c["z0"]))
+                      c["alias"], c["z0"], c["net"]))
     ctx.netparams_doc = doc
     return js, tsv
 
@@ -72,8 +81,8 @@ def _case_index_factory(keys):
 
 
 def _key(c):
-    return "%s:%s:%s:%s:%d:%d:%s" % (c["kind"], c["from"], c["via"], c["to"],
-                                     c["n"], c["alias"], c["z0"])
+    return "%s:%s:%s:%s:%d:%d:%s:%s" % (c["kind"], c["from"], c["via"], c["to"],
+                                        c["n"], c["alias"], c["z0"], c["net"])
 
 
 def run(ctx, exe, tier, seed, draws=None):
@@ -127,7 +136,7 @@ def run(ctx, exe, tier, seed, draws=None):
     # chain / n-vs-2 case it takes part in: report it once, at the source
     direct_bad = set()
     for r in bad:
-        if r["failed"] > 0 and r["kind"] in ("conv2", "convn", "zin2", "zinn"):
+        if r["failed"] > 0 and r["kind"] in DIRECT:
             direct_bad |= set(_members(r))
     for r in bad:
         key = r["case"].split(":", 2)[2]
@@ -135,18 +144,20 @@ def run(ctx, exe, tier, seed, draws=None):
         if r["decided"] == 0:
             ctx.machinery_errors.append("C04 case never decided: " + r["case"])
             continue
-        if r["kind"] not in ("conv2", "convn", "zin2", "zinn") and \
+        if r["kind"] not in DIRECT and \
                 direct_bad & set(_members(r)):
             stats["explained_by_direct_failure"] = \
                 stats.get("explained_by_direct_failure", 0) + 1
             continue
         sig = "NetParams:%s:%s:%s" % (r["kind"], fn, r["what"])
+        if r.get("net", "-") != "-":
+            sig += ":" + r["net"]
         rp = ctx.save_replay("netparams-%s.json" % common.sig_hash(sig + r["z0"]), r)
         issues.append(vlib.Issue(
             {"C04"}, sig,
-            "%s (%s, n=%d, z0 class %s, %s buffers): %d of %d decided draws "
+            "%s (%s, network %s, n=%d, z0 class %s, %s buffers): %d of %d decided draws "
             "violate '%s' (worst residual 1e%d); case %s first bad draw %d"
-            % (fn, r["kind"], r["n"], r["z0"],
+            % (fn, r["kind"], r.get("net", "-"), r["n"], r["z0"],
                "aliased" if r["alias"] else "separate", r["failed"],
                r["decided"], r["what"], r["lg"], key, r["firstBad"]),
             replay=rp, detail=r))
@@ -161,9 +172,9 @@ def _members(r):
            "G": "g", "A": "a", "B": "b", "ZIN": "zi"}
     f, v, t = r["from"], r["via"], r["to"]
     k = r["kind"]
-    if k in ("conv2", "zin2"):
+    if k in ("conv2", "zin2", "sconv2", "szin2"):
         return ["%sto%s" % (let[f], let[t])]
-    if k in ("convn", "zinn"):
+    if k in ("convn", "zinn", "sconvn", "szinn"):
         return ["%sto%sn" % (let[f], let[t])]
     if k == "round2":
         return ["%sto%s" % (let[f], let[v]), "%sto%s" % (let[v], let[f])]
@@ -180,7 +191,7 @@ def _members(r):
 def _fn_label(r):
     let = {"S": "s", "T": "t", "U": "u", "Z": "z", "Y": "y", "H": "h",
            "G": "g", "A": "a", "B": "b", "ZIN": "zi"}
-    n = "n" if r["kind"] in ("convn", "zinn", "roundn") else ""
+    n = "n" if r["kind"] in ("convn", "zinn", "roundn", "sconvn", "szinn") else ""
     if r["kind"] in ("round2", "roundn"):
         return "vnaconv_%sto%s%s+%sto%s%s" % (let[r["from"]], let[r["via"]], n,
                                               let[r["via"]], let[r["from"]], n)
@@ -266,7 +277,9 @@ def replay(ctx, exe, path):
         r2 = json.loads(fp.readline())
     if r2["failed"] > 0:
         issues.append(vlib.Issue(
-            {"C04"}, "NetParams:%s:%s:%s" % (r2["kind"], _fn_label(r2), r2["what"]),
+            {"C04"}, "NetParams:%s:%s:%s%s" % (
+                r2["kind"], _fn_label(r2), r2["what"],
+                (":" + r2["net"]) if r2.get("net", "-") != "-" else ""),
             "replay: %s fails '%s' in %d of %d decided draws" %
             (_fn_label(r2), r2["what"], r2["failed"], r2["decided"]),
             detail=r2))
